@@ -19,6 +19,7 @@ import TLX.Drv.Session
 import TLX.Drv.CryptoStream
 import TLX.Drv.UdpOut
 import TLX.Drv.TlsMsgs
+import TLX.Drv.Dissect
 
 def main (args : List String) : IO UInt32 := do
   match args with
@@ -33,6 +34,7 @@ def main (args : List String) : IO UInt32 := do
   | ["options"] => TLX.Drv.Options.main; return 0
   | ["container"] => TLX.Drv.Container.main; return 0
   | ["reasm"] => TLX.Drv.Reasm.main; return 0
+  | ["dissect"] => TLX.Drv.Dissect.main; return 0
   | ["reasm-legacy"] => TLX.Drv.Reasm.mainLegacy; return 0
   | ["session"] => TLX.Drv.Session.main; return 0
   | ["cryptostream"] => TLX.Drv.CryptoStream.main; return 0
